@@ -116,6 +116,12 @@ def visit_fn(prog, heap, objs):
         return lambda p, k, v: True
     if prog == 7:
         return lambda p, k, v: len(p) != 1
+    if prog == 8:
+        # the value handed to visit for a container is the REBUILT container: drop it when nothing is left in it
+        return lambda p, k, v: (len(v) > 0) if isinstance(v, (dict, list, tuple, set, frozenset)) else ILEAF(v) != 1
+    if prog == 9:
+        return lambda p, k, v: True if isinstance(v, (dict, list, tuple, set, frozenset)) else \
+            (False if ILEAF(v) == 1 else (k, LEAF(12)) if ILEAF(v) == 2 else True)
     raise core.MachineryError("prog")
 
 
@@ -173,7 +179,19 @@ def run_remap(prog, heap, objs, wrap=False):
                 newnode[id(r)] = node_of[id(old_parent)]
                 return r
             kw["enter"], kw["exit"] = enter, exit_
-    res = it.remap(root, **kw)
+    if list(kw) == ["visit"] and len(heap) % 2:
+        res = it.remap(root, kw["visit"])           # the callback handed over positionally
+    elif prog in (0, 1, 3) and len(heap) % 3 == 0:
+        # (a visit that raises is told apart from one that answers: with reraise_visit=False the item is kept as it is)
+        inner = kw.get("visit", it.default_visit)
+
+        def touchy(p, k, v):
+            if not isinstance(v, (dict, list, tuple, set, frozenset)) and ILEAF(v) == 999:
+                raise ValueError("never happens: no such leaf")
+            return inner(p, k, v)
+        res = it.remap(root, **dict(kw, visit=touchy, reraise_visit=False))
+    else:
+        res = it.remap(root, **kw)
     return res, enters, exits, newnode, wrap
 
 
@@ -378,7 +396,7 @@ def records(rng, count):
         heap = random_heap(rng, rng.randint(2, 6), tree)
         if not on_cycle_ok(heap):
             continue
-        prog = rng.choice([0, 1, 3, 5, 6, 0, 2, 4] + ([7, 7, 7] if tree and is_tree(heap) else []))
+        prog = rng.choice([0, 1, 3, 5, 6, 0, 2, 4, 9] + ([7, 7, 7, 8, 8, 8] if tree and is_tree(heap) else []))
         global LEAFMODE
         LEAFMODE = len(recs) % 2 == 1
         objs = build(heap)
